@@ -1,24 +1,36 @@
 (* C05 — executable model of how package bytes reach installation:
-   pkg/apk/apk/implementation.go (expandPackage, verifyExpanded as added by fix
-   6d335fb, cachedPackage, cachePackage, apkCache.get = the process-wide memo),
-   pkg/apk/expandapk/expandapk.go (checkSums inside ExpandApk), install.go
-   (streaming install) and pkg/tarfs/fs.go (lazy install). No proofs here.
+   pkg/apk/expandapk/expandapk.go (ExpandApk: the cut of the served stream into
+   gzip members by expandApkWriter / expandApkReader, which hash covers which
+   member, checkSums), pkg/apk/apk/implementation.go (expandPackage,
+   verifyExpanded as added by fix 6d335fb, cachedPackage, cachePackage with the
+   three files <sha1>.ctl.tar.gz / <name>.dat.tar.gz / <name>.dat.tar,
+   APKExpanded.PackageData's rebuild of a missing .dat.tar, apkCache.get = the
+   process-wide memo), install.go (streaming install) and pkg/tarfs/fs.go (lazy
+   install). No proofs here.
 
-   A served .apk is (signature member?, control member, data member). Raw bytes
-   are abstract ([c_raw], [d_raw]); SHA-1 / SHA-256 are Section variables. What
-   the control section says matters only through its `datahash` values; the
-   data section through its file list (kind, body, recorded checksum).
-   gzip/tar decoding, stream counting and file conflicts are not modelled. *)
+   A served .apk is a byte stream = complete gzip members followed by whatever
+   is not one ([s_trail]). Bytes are abstract; SHA-1 / SHA-256 / base64 and the
+   decoders (first tar header of a member, .PKGINFO of a control member,
+   multi-member gunzip, untar) are Section variables. File conflicts between
+   packages (C07), the cache's crash/concurrency protocol (C19) and the cache
+   directory's path (C18) are not modelled. *)
 From Apko Require Import Base.Prelude.
 Open Scope string_scope. Open Scope list_scope.
 
-Inductive fkind := FReg | FSym | FDir.
+(* tar.TypeReg / TypeSymlink / TypeDir / TypeLink (hard link) / anything else *)
+Inductive fkind := FReg | FSym | FDir | FLink | FOther.
 (* the APK-TOOLS.checksum.SHA1 record of a header: absent, undecodable, or bytes *)
 Inductive recsum := SumNone | SumBad | SumSome (d : list N).
-Record dfile := { f_name : string; f_kind : fkind; f_body : list N; f_sum : recsum }.
+(* one tar entry of a data section; [f_link] = header.Linkname (hard links) *)
+Record dfile := { f_name : string; f_kind : fkind; f_body : list N; f_sum : recsum; f_link : string }.
+(* a control section: its bytes (one gzip member) and what its .PKGINFO says *)
 Record control := { c_raw : list N; c_desc : string; c_datahash : list string }.
+(* a data section: its compressed bytes and the tar entries an installer reads *)
 Record data := { d_raw : list N; d_files : list dfile }.
-Record apkfile := { a_ctl : control; a_dat : data }.
+
+(* what the origin serves under a URL: the complete gzip members in order, and
+   the bytes after the last complete member (empty for a well-formed file) *)
+Record stream := { s_members : list (list N); s_trail : list N }.
 
 (* the package handle (index entry or lock-file entry): URL and checksum string *)
 Record handle := { h_url : string; h_chk : string }.
@@ -58,26 +70,116 @@ Definition bytes_eqb := list_eqb N.eqb.
 Fixpoint assoc_b {A} (x : list N) (l : list (list N * A)) : option A :=
   match l with [] => None | (k, v) :: l' => if bytes_eqb x k then Some v else assoc_b x l' end.
 
-(* one package directory of the on-disk cache: <hex sha1>.ctl.tar.gz keyed by
-   the digest (hex of a byte string is injective), <name>.dat.tar.gz keyed by
-   the name as text because the reader takes it verbatim from `datahash` *)
-Record cache := { k_ctl : list (list N * control); k_dat : list (string * data) }.
-Definition empty_cache : cache := {| k_ctl := []; k_dat := [] |}.
+(* one package directory of the on-disk cache. <hex sha1>.ctl.tar.gz is keyed by
+   the digest (hex of a byte string is injective); <name>.dat.tar.gz and
+   <name>.dat.tar (the uncompressed copy installs read) are keyed by the name as
+   text because the reader takes it verbatim from `datahash`. The .sig.tar.gz
+   file plays no part in what is installed. *)
+Record cache := { k_ctl : list (list N * list N); k_gz : list (string * list N); k_tar : list (string * list N) }.
+Definition empty_cache : cache := {| k_ctl := []; k_gz := []; k_tar := [] |}.
+(* paths.AdvertiseCachedFile: an existing destination is kept *)
+Definition adv_s {A} (n : string) (v : A) (l : list (string * A)) : list (string * A) :=
+  match assoc_s n l with Some _ => l | None => (n, v) :: l end.
+Definition adv_b {A} (n : list N) (v : A) (l : list (list N * A)) : list (list N * A) :=
+  match assoc_b n l with Some _ => l | None => (n, v) :: l end.
 
-(* APKExpanded as far as installation uses it *)
-Record exp := { x_ctl : control; x_dat : data; x_ctl_hash : list N }.
+(* APKExpanded as far as installation uses it: [x_ctl] is what ControlFS holds
+   (package info), [x_ctl_file] the bytes of ControlFile (scripts, triggers, what a
+   later cache hit opens), [x_dat] the bytes of PackageFile with the entries of the
+   tar installs read (TarFS / PackageData) *)
+Record exp := { x_ctl : control; x_ctl_file : list N; x_dat : data; x_ctl_hash : list N }.
 
-Inductive eclass := EFetch | ESums | EVerify | EInstall.
+Inductive eclass := EFetch | EExpand | ESums | EVerify | EInstall.
 Inductive eres := XOk (x : exp) | XErr (e : eclass).
+
+(* strings.HasPrefix(hdr.Name, ".SIGN.") in expandApkWriter.Next *)
+Definition sign_prefix : string := ".SIGN.".
+
+(* ExpandApk's view of the served bytes *)
+Record cutres := {
+  u_sig : list N;          (* bytes taken as signature member ([] = none) *)
+  u_ctl : list N;          (* bytes hashed with SHA-1 and stored as ControlFile *)
+  u_dat : list N;          (* bytes stored as PackageFile *)
+  u_full : bool            (* the data branch of the loop ran: SHA-256 over [u_dat], checkSums *)
+}.
+(* what ExpandApk hands to verifyExpanded / cachePackage *)
+Record fetched := {
+  e_ctl : control; e_gz : list N; e_tar : list N; e_files : list dfile;
+  e_ch : list N;           (* ControlHash *)
+  e_dh : list N            (* PackageHash *)
+}.
+Inductive fres := FOk (e : fetched) | FErr (c : eclass).
 
 Section Oracles.
   Variable sha1 : list N -> list N.
   Variable sha256 : list N -> list N.
   Variable b64 : string -> option (list N).      (* base64.StdEncoding.DecodeString; None = error *)
+  (* decoders of member bytes (gzip, archive/tar, the .PKGINFO line format) *)
+  Variable first_name : list N -> option string.              (* Name of the first tar header inside one member; None: none can be read *)
+  Variable ctl_view : list N -> option (string * list string). (* a member read as control section: pkgdesc and the datahash values of its .PKGINFO; None: no readable tar / no .PKGINFO *)
+  Variable gunzip : list N -> option (list N).                 (* all members of the byte string decompressed and concatenated; None: error *)
+  Variable untar : list N -> option (list dfile).              (* the entries up to the end-of-archive marker; None: error *)
 
   (* the checksum the handle records: base64 of the string with one leading
      "Q1" removed *)
   Definition h_sum (h : handle) : option (list N) := b64 (strip_q1 (h_chk h)).
+
+  Definition mk_ctl (raw : list N) : option control :=
+    match ctl_view raw with
+    | Some (d, dhs) => Some {| c_raw := raw; c_desc := d; c_datahash := dhs |}
+    | None => None
+    end.
+  Definition dat_view (gz : list N) : option (list dfile) :=
+    match gunzip gz with Some t => untar t | None => None end.
+
+  (* ---- ExpandApk: the cut ---------------------------------------------------
+     The source is read ONE BYTE AT A TIME (expandApkReader) through a tee into
+     the current stream file and the current hash while a gzip reader with
+     Multistream(false) consumes one member: so the first member(s) are cut
+     exactly at their last byte, file and hash hold exactly the member. After
+     the first member its first tar header is read back: a name with prefix
+     ".SIGN." raises the number of expected streams from 2 to 3. The LAST
+     expected stream is read fast, multistream and to the end of the input: all
+     remaining members together are the data section, hashed with SHA-256, and
+     checkSums runs over their concatenated tar. Anything that is not a gzip
+     member where a header is expected is an error, wherever it stands.
+     When the input ends before the last expected stream was opened, the streams
+     seen so far are counted. Until fix 3bc1979 two were then accepted as
+     (control, data) even when three were expected: for a first member that
+     starts with .SIGN.* this took the signature for the control section and the
+     next member — hashed with SHA-1, never run through checkSums — for the data
+     section (finding C05-F3). [accept2 = true] is that earlier behaviour, kept
+     for the regression statement only; the code today is [accept2 = false]. *)
+  Definition cut_with (accept2 : bool) (s : stream) : option cutres :=
+    match s_trail s, s_members s with
+    | _ :: _, _ => None
+    | [], [] => None                                            (* "empty input" *)
+    | [], m0 :: rest =>
+        match first_name m0 with
+        | None => None                                          (* expandApkWriter.Next error 3/4 *)
+        | Some n =>
+            if String.prefix sign_prefix n then
+              match rest with
+              | [] => None                                      (* invalid number of tar streams: 1 *)
+              | [m1] => if accept2
+                        then Some {| u_sig := []; u_ctl := m0; u_dat := m1; u_full := false |}
+                        else None                               (* invalid number of tar streams for a signed package: 2 *)
+              | m1 :: m2 :: more => Some {| u_sig := m0; u_ctl := m1; u_dat := List.concat (m2 :: more); u_full := true |}
+              end
+            else
+              match rest with
+              | [] => None                                      (* invalid number of tar streams: 1 *)
+              | _ :: _ => Some {| u_sig := []; u_ctl := m0; u_dat := List.concat rest; u_full := true |}
+              end
+        end
+    end.
+  Definition cut := cut_with false.
+  (* the shape of C05-F3: exactly two members, the first starts with a .SIGN.* entry *)
+  Definition sig2 (s : stream) : bool :=
+    match s_members s with
+    | [m0; _] => match first_name m0 with Some n => String.prefix sign_prefix n | None => false end
+    | _ => false
+    end.
 
   (* expandapk.checkSums: only regular files, only when a checksum is recorded *)
   Fixpoint check_sums (fs : list dfile) : bool :=
@@ -95,6 +197,30 @@ Section Oracles.
         end
     end.
 
+  Definition expand_apk_with (accept2 : bool) (s : stream) : fres :=
+    match cut_with accept2 s with
+    | None => FErr EExpand
+    | Some u =>
+        match gunzip (u_dat u) with
+        | None => FErr EExpand
+        | Some t =>
+            match untar t with
+            | None => FErr EExpand                               (* checkSums / tarfs.New on the data section *)
+            | Some fs =>
+                if u_full u && negb (check_sums fs) then FErr ESums
+                else match mk_ctl (u_ctl u) with
+                     | None => FErr EExpand                      (* tarfs.New on the control section / no .PKGINFO *)
+                     | Some c =>
+                         FOk {| e_ctl := c; e_gz := u_dat u; e_tar := t; e_files := fs;
+                                e_ch := sha1 (u_ctl u);
+                                e_dh := if u_full u then sha256 (u_dat u) else sha1 (u_dat u) |}
+                     end
+            end
+        end
+    end.
+
+  Definition expand_apk := expand_apk_with false.
+
   (* verifyExpanded *)
   Definition verify_expanded (h : handle) (ctl_hash dat_hash : list N) (c : control) : bool :=
     match h_sum h with
@@ -104,55 +230,85 @@ Section Oracles.
         forallb (fun dh => String.eqb dh "" || String.eqb dh (hex dat_hash)) (c_datahash c)
     end.
 
-  (* cachedPackage: everything is looked up BY NAME; nothing is re-hashed *)
-  Definition cached_package (k : cache) (h : handle) : option exp :=
+  (* cachedPackage: everything is looked up BY NAME; nothing is re-hashed.
+     PackageData opens <name>.dat.tar when it exists and otherwise rebuilds it
+     from <name>.dat.tar.gz — the rebuilt file stays even if indexing it fails *)
+  Definition cached_package (k : cache) (h : handle) : option exp * cache :=
     if h_q1 h then
       match h_sum h with
       | Some sum =>
           match assoc_b sum (k_ctl k) with
-          | Some c =>
-              match c_datahash c with
-              | [dh] =>
-                  match assoc_s dh (k_dat k) with
-                  | Some d => if is_hex dh then Some {| x_ctl := c; x_dat := d; x_ctl_hash := sum |} else None
-                  | None => None
+          | Some craw =>
+              match mk_ctl craw with
+              | Some c =>
+                  match c_datahash c with
+                  | [dh] =>
+                      match assoc_s dh (k_gz k) with
+                      | Some gz =>
+                          if is_hex dh then
+                            let mk fs := {| x_ctl := c; x_ctl_file := craw; x_dat := {| d_raw := gz; d_files := fs |}; x_ctl_hash := sum |} in
+                            match assoc_s dh (k_tar k) with
+                            | Some t => (option_map mk (untar t), k)
+                            | None =>
+                                match gunzip gz with
+                                | Some t => (option_map mk (untar t),
+                                             {| k_ctl := k_ctl k; k_gz := k_gz k; k_tar := (dh, t) :: k_tar k |})
+                                | None => (None, k)
+                                end
+                            end
+                          else (None, k)
+                      | None => (None, k)
+                      end
+                  | _ => (None, k)                  (* "saw %d datahash values" *)
                   end
-              | _ => None                       (* "saw %d datahash values" *)
+              | None => (None, k)
               end
-          | None => None
+          | None => (None, k)
           end
-      | None => None
+      | None => (None, k)
       end
-    else None.                                   (* "unexpected checksum" *)
+    else (None, k).                                 (* "unexpected checksum" *)
 
-  (* cachePackage: AdvertiseCachedFile keeps an existing destination; the
-     returned APKExpanded points at the cache files *)
-  Definition cache_package (k : cache) (c : control) (d : data) (ch dh : list N) : cache * exp :=
-    let kc := match assoc_b ch (k_ctl k) with Some _ => k_ctl k | None => (ch, c) :: k_ctl k end in
-    let kd := match assoc_s (hex dh) (k_dat k) with Some _ => k_dat k | None => (hex dh, d) :: k_dat k end in
-    ({| k_ctl := kc; k_dat := kd |},
-     {| x_ctl := match assoc_b ch kc with Some c' => c' | None => c end;
-        x_dat := match assoc_s (hex dh) kd with Some d' => d' | None => d end;
-        x_ctl_hash := ch |}).
+  (* cachePackage: data, tar, control are advertised under the COMPUTED digests;
+     AdvertiseCachedFile keeps an existing destination; the returned APKExpanded
+     points at the cache files, its TarFS is re-opened from the cache's tar *)
+  Definition cache_package (k : cache) (e : fetched) : cache * option exp :=
+    let n := hex (e_dh e) in
+    let k' := {| k_ctl := adv_b (e_ch e) (c_raw (e_ctl e)) (k_ctl k);
+                 k_gz := adv_s n (e_gz e) (k_gz k);
+                 k_tar := adv_s n (e_tar e) (k_tar k) |} in
+    let cfile := match assoc_b (e_ch e) (k_ctl k') with Some c' => c' | None => c_raw (e_ctl e) end in
+    let gz := match assoc_s n (k_gz k') with Some g => g | None => e_gz e end in
+    let tar := match assoc_s n (k_tar k') with Some t => t | None => e_tar e end in
+    (k', match untar tar with
+         | Some fs => Some {| x_ctl := e_ctl e; x_ctl_file := cfile; x_dat := {| d_raw := gz; d_files := fs |}; x_ctl_hash := e_ch e |}
+         | None => None
+         end).
 
   (* expandPackage (the function, not the method). [k] = None: no cache. *)
-  Definition expand_uncached (k : option cache) (h : handle) (served : option apkfile)
+  Definition expand_uncached (k : option cache) (h : handle) (served : option stream)
     : eres * option cache :=
-    match (match k with Some kc => cached_package kc h | None => None end) with
-    | Some x => (XOk x, k)                                       (* cache hit: returned as is *)
+    let '(hit, k1) := match k with
+                      | Some kc => let (x, kc1) := cached_package kc h in (x, Some kc1)
+                      | None => (None, None)
+                      end in
+    match hit with
+    | Some x => (XOk x, k1)                                      (* cache hit: returned as is *)
     | None =>
         match served with
-        | None => (XErr EFetch, k)
-        | Some a =>
-            if negb (check_sums (d_files (a_dat a))) then (XErr ESums, k)
-            else
-              let ch := sha1 (c_raw (a_ctl a)) in
-              let dh := sha256 (d_raw (a_dat a)) in
-              if negb (verify_expanded h ch dh (a_ctl a)) then (XErr EVerify, k)
-              else match k with
-                   | None => (XOk {| x_ctl := a_ctl a; x_dat := a_dat a; x_ctl_hash := ch |}, None)
-                   | Some kc => let (kc', x) := cache_package kc (a_ctl a) (a_dat a) ch dh in (XOk x, Some kc')
-                   end
+        | None => (XErr EFetch, k1)
+        | Some s =>
+            match expand_apk s with
+            | FErr c => (XErr c, k1)
+            | FOk e =>
+                if negb (verify_expanded h (e_ch e) (e_dh e) (e_ctl e)) then (XErr EVerify, k1)
+                else match k1 with
+                     | None => (XOk {| x_ctl := e_ctl e; x_ctl_file := c_raw (e_ctl e);
+                                       x_dat := {| d_raw := e_gz e; d_files := e_files e |}; x_ctl_hash := e_ch e |}, None)
+                     | Some kc => let (kc', x) := cache_package kc e in
+                                  (match x with Some x => XOk x | None => XErr EExpand end, Some kc')
+                     end
+            end
         end
     end.
 
@@ -169,7 +325,7 @@ Section Oracles.
     String.eqb (fst a) (fst b) && String.eqb (snd a) (snd b).
   Fixpoint assoc_k (x : string * string) (l : memo) : option eres :=
     match l with [] => None | (k, v) :: l' => if key_eqb x k then Some v else assoc_k x l' end.
-  Definition expand_package (m : memo) (k : option cache) (h : handle) (served : option apkfile)
+  Definition expand_package (m : memo) (k : option cache) (h : handle) (served : option stream)
     : eres * option cache * memo :=
     match k with
     | None => let (r, k') := expand_uncached None h served in (r, k', m)
@@ -191,29 +347,37 @@ Definition hidden (f : dfile) : bool :=
 Fixpoint data_section (fs : list dfile) : list dfile :=
   match fs with [] => [] | f :: r => if hidden f then data_section r else fs end.
 
-(* lazy install (tarfs WriteHeader): regular files and symlinks need a decodable
-   recorded checksum; streaming install recomputes a missing one *)
-Fixpoint install_files (lazy : bool) (fs : list dfile) : option (list (string * list N)) :=
+(* installAPKFiles (streaming) / lazilyInstallAPKFiles + tarfs WriteHeader (lazy).
+   Regular files: the lazy install needs a decodable recorded checksum, the
+   streaming install recomputes a missing one (and fails on an undecodable one);
+   no body is compared with anything on either path. Symlinks: lazy needs a
+   decodable record, streaming ignores it. Hard links: fs.Link(Linkname, Name) on
+   both paths, no checksum involved — the new name holds the bytes of what the
+   target name holds at that moment ([seen]: names written so far by this
+   package; a missing target is an error). Other entry types: "unsupported file
+   type". The result lists (name, bytes) of everything readable as a file. *)
+Fixpoint install_files (lazy : bool) (seen : list (string * list N)) (fs : list dfile)
+  : option (list (string * list N)) :=
   match fs with
   | [] => Some []
   | f :: r =>
-      let ok :=
-        match f_kind f, f_sum f with
-        | FDir, _ => true
-        | FReg, SumBad => false
-        | FReg, SumNone => negb lazy
-        | FReg, SumSome _ => true
-        | FSym, SumSome _ => true
-        | FSym, SumNone => negb lazy
-        | FSym, SumBad => negb lazy
-        end in
-      if ok then
-        match install_files lazy r with
-        | Some out => Some (match f_kind f with FReg => (f_name f, f_body f) :: out | _ => out end)
-        | None => None
-        end
-      else None
+      match f_kind f with
+      | FDir => install_files lazy seen r
+      | FOther => None
+      | FReg =>
+          let ok := match f_sum f with SumBad => false | SumNone => negb lazy | SumSome _ => true end in
+          if ok then option_map (cons (f_name f, f_body f)) (install_files lazy ((f_name f, f_body f) :: seen) r)
+          else None
+      | FSym =>
+          let ok := match f_sum f with SumSome _ => true | _ => negb lazy end in
+          if ok then install_files lazy seen r else None
+      | FLink =>
+          match assoc_s (f_link f) seen with
+          | Some b => option_map (cons (f_name f, b)) (install_files lazy ((f_name f, b) :: seen) r)
+          | None => None
+          end
+      end
   end.
 
 Definition install (lazy : bool) (x : exp) : option (list (string * list N)) :=
-  install_files lazy (data_section (d_files (x_dat x))).
+  install_files lazy [] (data_section (d_files (x_dat x))).
